@@ -181,7 +181,9 @@ pub fn run(args: &Args) -> i32 {
             // (own id, sibling id) pairs in both directions
             let pairs: Vec<(u16, u16)> = if cell.proto == Proto::Icmp {
                 let mut v = vec![(1, 0), (0, 1), (2, 1), (3, 2), (65534, 65533), (65533, 65534), (0x1234, 0x1235)];
-                v.extend(cli_pairs.iter().copied().filter(|p| !v.contains(p)).collect::<Vec<_>>());
+                // quick: of the pairs read from the command-line layer only those at the wrap-around of
+                // the identifier space (the others differ from the fixed pairs by an offset only)
+                v.extend(cli_pairs.iter().copied().filter(|p| !v.contains(p) && (tier == Tier::Thorough || p.0 == u16::MAX || p.1 == u16::MAX)).collect::<Vec<_>>());
                 v
             } else {
                 vec![(0x1234, 0x1235)]
